@@ -407,7 +407,8 @@ impl DecodeBeatmap for TimingPoints {
             .zip(split.next())
             .ok_or(ParseTimingPointsError::InvalidLine)?;
 
-        let time = time.parse_num::<f64>()?;
+        // `-0` is the same point in time as `0` but would be ordered before it
+        let time = time.parse_num::<f64>()? + 0.0;
 
         // Manual `str::parse_num::<f64>` so that NaN does not cause an error
         let beat_len = beat_len
